@@ -245,8 +245,4 @@ def run(ctx):
                        'cubic and its error expanded in the step; default-argument feasibility is a contradiction rule on the constructors; '
                        'the string step\'s rate laws, tangents and image selection are extracted and compared with the documented formulas. '
                        'Not decided: convergence to the minima/saddle.')
-    linear_order(ctx, EU, 'euler', 1)
-    linear_order(ctx, RK, 'rungekutta', 4)
-    cdiff(ctx)
-    default_feasible(ctx)
-    string_step(ctx)
+    ctx.run_rules([lambda c: linear_order(c, EU, 'euler', 1), lambda c: linear_order(c, RK, 'rungekutta', 4), cdiff, default_feasible, string_step])
